@@ -629,7 +629,7 @@ def run(ctx):
     if ctx.model_runs[-1]["result"] != "ok":
         raise vlib.Inconclusive("the repaired design violates its own properties: " + ctx.model_runs[-1]["result"])
     if not quick:
-        three = consts(["k1", "k2", "k3"], ["e1", "e2"], 2, 1, fixed)
+        three = consts(["k1", "k2", "k3"], ["e1", "e2"], 1, 1, fixed)   # (2 crashes, 1 drop: 1.4e6 states, 3-9 min)
         ctx.model_check("Restart", "repaired-3tasks", cfg_text=cfg_model(three, allp, "TypeOK TasksUnderIdentity RosterOfThisLife EnvsStay"),
                         workers=WORKERS, timeout=1500)
         if ctx.model_runs[-1]["result"] != "ok":
